@@ -95,3 +95,153 @@ def cpp_copy(exe, infmt, outfmt, infile, outfile, bufsize=1, timeout=60):
 def py_copy(pkg_parent, module, proto, infmt, outfmt, infile, outfile, mode="copy", timeout=120):
     rc, so, se = run([PY, PYDRV, pkg_parent, module, proto, "copy", infmt, outfmt, infile, outfile, mode], timeout=timeout)
     return rc, se
+
+
+# ----------------------------------------------------------------------------- call-sequence drivers (C07, C17)
+
+def cpp_steps(gen_dir, proto):
+    """Parse <gen_dir>/protocols.h: -> list of (MethodSuffix, cpp type, is_stream) in declaration order."""
+    txt = open(os.path.join(gen_dir, "protocols.h")).read()
+    m = re.search(r"class %sReaderBase \{(.*?)\n\};" % re.escape(proto), txt, re.S)
+    if not m:
+        raise Inconclusive("cannot find %sReaderBase in generated protocols.h" % proto)
+    body = m.group(1).split("protected:")[0]
+    steps = []
+    for mm in re.finditer(r"^\s*(\[\[nodiscard\]\] bool|void) Read(\w+)\((.*)& (values?)\);\s*$", body, re.M):
+        ret, name, typ, arg = mm.groups()
+        if arg == "values":
+            continue
+        steps.append((name, typ.strip(), ret != "void"))
+    return steps
+
+
+CALLS_MAIN = r'''
+// call-sequence driver emitted by /verif (lib/drivers.py): executes a script of API calls on the generated reader / writer
+#include <fstream>
+#include <iostream>
+#include <sstream>
+#include <string>
+#include "binary/protocols.h"
+%(ndjson_inc)s
+using namespace %(ns)s;
+
+static void emit(std::string const& step, nlohmann::ordered_json const& j) {
+  std::cout << "VAL " << step << " " << j.dump() << "\n";
+}
+
+template <class R>
+static int rcalls(std::string const& file) {
+  std::string op;
+  try {
+    R r(file);
+    std::cout << "OPEN" << std::endl;
+    while (std::cin >> op) {
+      try {
+        if (op == "close") { r.Close(); std::cout << "OK close" << std::endl; continue; }
+        int i; std::cin >> i;
+        size_t cap = 0;
+        if (op == "batch") std::cin >> cap;
+        switch (i) {
+%(rcases)s
+          default: std::cout << "BADSTEP" << std::endl; return 3;
+        }
+      } catch (std::exception const& e) {
+        std::cout << "EXC " << e.what() << std::endl;
+        return 1;
+      }
+    }
+  } catch (std::exception const& e) {
+    std::cout << "EXC-OPEN " << e.what() << std::endl;
+    return 1;
+  }
+  return 0;
+}
+
+template <class W>
+static int wcalls(std::string const& file) {
+  std::string op;
+  try {
+    W w(file);
+    std::cout << "OPEN" << std::endl;
+    while (std::cin >> op) {
+      try {
+        if (op == "close") { w.Close(); std::cout << "OK close" << std::endl; continue; }
+        int i; std::cin >> i;
+        size_t n = 0;
+        if (op == "wbatch") std::cin >> n;
+        switch (i) {
+%(wcases)s
+          default: std::cout << "BADSTEP" << std::endl; return 3;
+        }
+      } catch (std::exception const& e) {
+        std::cout << "EXC " << e.what() << std::endl;
+        return 1;
+      }
+    }
+    w.Flush();
+  } catch (std::exception const& e) {
+    std::cout << "EXC-OPEN " << e.what() << std::endl;
+    return 1;
+  }
+  return 0;
+}
+
+int main(int argc, char** argv) {
+  if (argc < 4) return 3;
+  std::string cmd = argv[1], fmt = argv[2], file = argv[3];
+  if (cmd == "rcalls" && fmt == "binary") return rcalls<%(ns)s::binary::%(proto)sReader>(file);
+  if (cmd == "wcalls" && fmt == "binary") return wcalls<%(ns)s::binary::%(proto)sWriter>(file);
+%(ndjson_main)s
+  return 3;
+}
+'''
+
+
+def cpp_build_calls(gen_dir, ns_cpp, proto, out_exe, ndjson=True, extra_flags=None):
+    """Builds the call-sequence driver.  With ndjson=True delivered values are printed as JSON (the generated NDJSON
+    converters are included textually, they live in ndjson/protocols.cc)."""
+    shutil.copy(os.path.join(SHIMS, "yardl_shim_ndarray.h"), os.path.join(gen_dir, "yardl", "yardl_shim_ndarray.h"))
+    steps = cpp_steps(gen_dir, proto)
+    rc_, wc_ = [], []
+    for i, (name, typ, stream) in enumerate(steps):
+        js = ("emit(\"%s\", nlohmann::ordered_json(v));" % name) if ndjson else ""
+        jsb = ("for (auto const& v : vs) emit(\"%s\", nlohmann::ordered_json(v));" % name) if ndjson else ""
+        if stream:
+            rc_.append('          case %d: { if (op == "batch") { std::vector<%s> vs; vs.reserve(cap); bool more = r.Read%s(vs); '
+                       'std::cout << "OK " << more << " " << vs.size() << "\\n"; %s std::cout << std::flush; } '
+                       'else { %s v{}; bool more = r.Read%s(v); std::cout << "OK " << more << " " << (more ? 1 : 0) << "\\n"; if (more) { %s } std::cout << std::flush; } break; }'
+                       % (i, typ, name, jsb, typ, name, js))
+            wc_.append('          case %d: { if (op == "end") { w.End%s(); } else if (op == "wbatch") { std::vector<%s> vs(n); w.Write%s(vs); } '
+                       'else { %s v{}; w.Write%s(v); } std::cout << "OK" << std::endl; break; }' % (i, name, typ, name, typ, name))
+        else:
+            rc_.append('          case %d: { %s v{}; r.Read%s(v); std::cout << "OK 0 1\\n"; %s std::cout << std::flush; break; }' % (i, typ, name, js))
+            wc_.append('          case %d: { %s v{}; w.Write%s(v); std::cout << "OK" << std::endl; break; }' % (i, typ, name))
+    main = CALLS_MAIN % {
+        "ns": ns_cpp, "proto": proto, "rcases": "\n".join(rc_), "wcases": "\n".join(wc_),
+        "ndjson_inc": '#include "ndjson/protocols.cc"' if ndjson else '#include <nlohmann/json.hpp>',
+        "ndjson_main": ('  if (cmd == "rcalls" && fmt == "ndjson") return rcalls<%s::ndjson::%sReader>(file);\n'
+                        '  if (cmd == "wcalls" && fmt == "ndjson") return wcalls<%s::ndjson::%sWriter>(file);' % (ns_cpp, proto, ns_cpp, proto)) if ndjson else "",
+    }
+    with open(os.path.join(gen_dir, "verif_calls.cc"), "w") as f:
+        f.write(main)
+    srcs = ["types.cc", "protocols.cc", "binary/protocols.cc", "verif_calls.cc"]
+    flags = ["-std=c++17", "-O0", "-I", SHIMS, "-I", THIRD, "-I", gen_dir] + (extra_flags or [])
+
+    def comp(src):
+        obj = os.path.join(gen_dir, "calls_" + src.replace("/", "_") + ".o")
+        rc, so, se = run(["g++"] + flags + ["-c", os.path.join(gen_dir, src), "-o", obj], timeout=900)
+        return src, obj, rc, se
+    res = pmap(comp, srcs, jobs=4)
+    for src, obj, rc, se in res:
+        if rc != 0:
+            return False, "%s: %s" % (src, se[-3000:]), steps
+    rc, so, se = run(["g++"] + flags + [o for _, o, _, _ in res] + ["-o", out_exe], timeout=600)
+    if rc != 0:
+        return False, "link: " + se[-3000:], steps
+    return True, "", steps
+
+
+def run_calls(exe_or_py, cmd, fmt, file, script, timeout=60):
+    """script: list of call strings.  Returns list of output lines (OPEN / OK ... / VAL ... / EXC ...)."""
+    rc, so, se = run(exe_or_py + [cmd, fmt, file], input=("\n".join(script) + "\n").encode(), timeout=timeout)
+    return rc, [l for l in so.splitlines() if l.strip()], se
